@@ -17,6 +17,131 @@ class SchedulerError(Exception):
     """Machinery failure (hang, lost baton); never a property violation."""
 
 
+class Deadlock(Exception):
+    """The code under test deadlocked under this schedule (a finding about the code, not a machinery failure)."""
+
+
+# ------------------------------------------------------------------ locks of the library become scheduler-aware
+_ACTIVE = None          # the scheduler whose threads are running (at most one per process)
+_REAL_LOCK_TYPES = (type(threading.Lock()), type(threading.RLock()))
+
+
+import weakref
+_ALL_LOCKS = weakref.WeakSet()
+
+
+class CoopLock:
+    """Stand-in for threading.Lock / RLock objects found in (or created by) the library.  Outside a controlled schedule it is
+    an ordinary lock.  Inside one, a thread that finds the lock taken does not block the process: it is marked blocked and the
+    baton goes to a thread that can run (not a preemption); if no thread can run, that is a deadlock of the code under test."""
+
+    def __init__(self, reentrant=False):
+        self.reentrant = reentrant
+        self._real = threading.RLock() if reentrant else threading.Lock()
+        self.owner = None
+        self.count = 0
+        _ALL_LOCKS.add(self)
+
+    def _managed(self):
+        sch = _ACTIVE
+        if sch is None:
+            return None, None
+        tid = sch.tids.get(threading.get_ident())
+        return (sch, tid) if tid is not None else (None, None)
+
+    def acquire(self, blocking=True, timeout=-1):
+        sch, tid = self._managed()
+        if sch is None:
+            return self._real.acquire(blocking, timeout) if blocking else self._real.acquire(False)
+        while True:
+            if self.owner is None or (self.reentrant and self.owner == tid):
+                self.owner = tid
+                self.count += 1
+                return True
+            if not blocking:
+                return False
+            sch.block(tid, self)
+
+    def release(self):
+        sch, tid = self._managed()
+        if sch is None:
+            return self._real.release()
+        if self.owner is None or (self.reentrant and self.owner != tid):
+            raise RuntimeError("release of a lock that is not held")
+        self.count -= 1
+        if self.count <= 0:
+            self.owner, self.count = None, 0
+            sch.unblock(self)
+
+    def locked(self):
+        return self.owner is not None or (self._real.locked() if hasattr(self._real, "locked") else False)
+
+    __enter__ = acquire
+
+    def __exit__(self, *a):
+        self.release()
+
+
+class _ThreadingProxy:
+    """What a library module sees as `threading` once patched: lock factories are cooperative, the rest is the real module."""
+
+    def __init__(self):
+        self.Lock = lambda: CoopLock(False)
+        self.RLock = lambda: CoopLock(True)
+
+    def __getattr__(self, name):
+        return getattr(threading, name)
+
+
+_PATCHED_FOR = [None]
+UNSUPPORTED_SYNC = []
+
+
+def patch_library_locks(prefix="joserfc"):
+    """Replace every real lock reachable from the library's modules (module globals, class attributes, attributes of module-level
+    instances, two levels deep) and the lock factories the modules would call later.  Done once per imported copy of the library."""
+    root = sys.modules.get(prefix)
+    if root is None or _PATCHED_FOR[0] is root:
+        return
+    _PATCHED_FOR[0] = root
+    import types
+    proxy = _ThreadingProxy()
+
+    def conv(v):
+        if isinstance(v, _REAL_LOCK_TYPES):
+            return CoopLock(reentrant=not isinstance(v, _REAL_LOCK_TYPES[0]))
+        return None
+
+    def scan_obj(o, depth):
+        d = getattr(o, "__dict__", None)
+        if not isinstance(d, (dict, types.MappingProxyType)) or depth > 2:
+            return
+        for k, v in list(d.items()):
+            if k.startswith("__"):
+                continue
+            c = conv(v)
+            if c is not None:
+                try:
+                    setattr(o, k, c)
+                except (AttributeError, TypeError):
+                    pass
+            elif isinstance(v, (threading.Condition, threading.Semaphore, threading.Event)):
+                UNSUPPORTED_SYNC.append(f"{getattr(o, '__name__', type(o).__name__)}.{k}: {type(v).__name__}")
+            elif type(v).__module__.startswith(prefix) or isinstance(v, type) and getattr(v, "__module__", "").startswith(prefix):
+                scan_obj(v, depth + 1)
+    for name, m in list(sys.modules.items()):
+        if m is None or not (name == prefix or name.startswith(prefix + ".")):
+            continue
+        for k, v in list(vars(m).items()):
+            if v is threading:
+                setattr(m, k, proxy)
+            elif v is threading.Lock:
+                setattr(m, k, proxy.Lock)
+            elif v is threading.RLock:
+                setattr(m, k, proxy.RLock)
+        scan_obj(m, 0)
+
+
 class Scheduler:
     def __init__(self, ctx, src_root, opcode_files=(), watchdog=20.0, max_points=20000):
         self.ctx = ctx
@@ -34,6 +159,9 @@ class Scheduler:
         self.error = None
         self.npoints = 0
         self._files = {}
+        self.tids = {}           # thread ident -> index
+        self.blocked = {}        # index -> lock it waits for
+        patch_library_locks()
 
     # ---- tracing
     def _in_lib(self, filename):
@@ -62,7 +190,28 @@ class Scheduler:
 
     # ---- scheduling
     def runnable(self):
-        return [i for i in range(len(self.sems)) if not self.done[i]]
+        return [i for i in range(len(self.sems)) if not self.done[i] and i not in self.blocked]
+
+    # ---- cooperative locks
+    def block(self, tid, lock):
+        """Thread `tid` found `lock` taken: hand the baton on (free of charge) and come back when it is this thread's turn again."""
+        self.blocked[tid] = lock
+        rest = self.runnable()
+        if not rest:
+            self.error = f"deadlock: every unfinished thread waits for a lock ({sorted(self.blocked)})"
+            self.deadlock = True
+            for sem in self.sems:        # let the parked threads run into the error flag and end
+                sem.release()
+            raise SystemExit
+        nxt = rest[0] if len(rest) == 1 else self.ctx.choose("lock-taken-continue-with", rest)
+        self.trace.append((tid, "<blocked on a lock>", 0))
+        self._handoff(tid, nxt)
+        if self.error:
+            raise SystemExit
+
+    def unblock(self, lock):
+        for t in [t for t, l in self.blocked.items() if l is lock]:
+            del self.blocked[t]
 
     def point(self, tid, frame):
         if self.error:
@@ -91,6 +240,13 @@ class Scheduler:
     def _finish(self, tid):
         self.done[tid] = True
         rest = self.runnable()
+        if not rest and self.blocked:
+            self.error = f"deadlock: the remaining threads wait for locks nobody will release ({sorted(self.blocked)})"
+            self.deadlock = True
+            for sem in self.sems:
+                sem.release()
+            self.main_sem.release()
+            return
         if rest:
             # free switch: the running thread has finished; which one continues is a dimension, not a preemption
             nxt = rest[0] if len(rest) == 1 else self.ctx.choose("continue-with", rest)
@@ -109,6 +265,7 @@ class Scheduler:
         def wrap(i):
             def target():
                 self.sems[i].acquire()
+                self.tids[threading.get_ident()] = i
                 if seam is not None:
                     seam.bind_thread(labels[i] if labels else f"T{i}")
                 sys.settrace(self._global_trace(i))
@@ -129,16 +286,25 @@ class Scheduler:
                         self.error = self.error or repr(e)
                         self.main_sem.release()
             return target
+        global _ACTIVE
         threads = [threading.Thread(target=wrap(i), daemon=True) for i in range(n)]
-        for t in threads:
-            t.start()
-        first = self.ctx.choose("first-thread", list(range(n)))
-        self.current = first
-        self.sems[first].release()
-        if not self.main_sem.acquire(timeout=self.watchdog * 3):
-            self.error = self.error or "schedule did not complete (hang)"
-        for t in threads:
-            t.join(timeout=1.0)
+        _ACTIVE = self
+        for lk in list(_ALL_LOCKS):      # a schedule that ended in a deadlock leaves its locks taken
+            lk.owner, lk.count = None, 0
+        try:
+            for t in threads:
+                t.start()
+            first = self.ctx.choose("first-thread", list(range(n)))
+            self.current = first
+            self.sems[first].release()
+            if not self.main_sem.acquire(timeout=self.watchdog * 3):
+                self.error = self.error or "schedule did not complete (hang)"
+            for t in threads:
+                t.join(timeout=1.0)
+        finally:
+            _ACTIVE = None
+        if getattr(self, "deadlock", False):
+            raise Deadlock(self.error)
         if self.error:
             raise SchedulerError(self.error)
         return self.results
